@@ -53,6 +53,9 @@ SECONDS = {'quick': 60, 'thorough': 600}
 CPU_BUDGET_S = 6.0
 
 
+WRAPPER_EVENTS = [0]      # every call that went through the evaluator wrapper in this process
+
+
 class Unbounded(BaseException):
     """sound sign of non-termination (see CaseMonitor.repeat)"""
 
@@ -115,6 +118,7 @@ class CaseMonitor:
 
         def before(args, kwargs):
             mon.calls += 1
+            WRAPPER_EVENTS[0] += 1
             targets = args[2] if len(args) > 2 else kwargs['target_assets']
             expr = args[3] if len(args) > 3 else kwargs['step_expression']
             ins = [mon.rev.get(id(a)) for a in targets]
@@ -456,6 +460,12 @@ def run(rng, res, tier, shard, nshards):
         res.notes['time-cap-hit'] = True
     reach.stop()
     res.reach = dict(reach.counts)
+    # binding bypass: every entry of the evaluator's code object must have gone through the wrapper
+    entries = reach.counts.get('attackgraph._process_step_expression', 0)
+    events = WRAPPER_EVENTS[0]
+    res.count('wrapper-events:evaluator', events)
+    if entries > events:
+        res.inconc('%d entries of the evaluator but only %d wrapper events: calls went round the monitor' % (entries, events))
 
 
 def _first_expr(spec):
